@@ -208,7 +208,7 @@ func sites(b *Bundle, pkg string) (msgs []msgSite, enums []enumSite, files []*Fi
 	return
 }
 
-// EmptyEnumAppends lists the instances of the one recorded C13 finding in an edit list: for
+// EmptyEnumAppends lists the instances of the former C13 finding (repaired by a65e1f2) in an edit list: for
 // every enum of pkg that has NO options in b (the bundle before the edits), the first option
 // the edits append to it, if that option ends in UNSPECIFIED.  Key: the proto full name of the
 // enum (package - or its .service / .topic sub-package - and nest path); value: the option.
@@ -347,6 +347,10 @@ func ApplyEdits(r *vh.Rand, b *Bundle, pkg string, n int) []EditRec {
 			p := &Property{Name: g.fieldName(sc), F: &Field{Kind: "objinline", Name: names[i],
 				Props: []*Property{{Name: "v", F: &Field{Kind: "scalar", Scalar: &Scalar{Kind: "string"}}}}}}
 			*site.props = append(*site.props, p)
+			if m := MethodOf(b, site.props); m != nil && !ListMethodOK(m) {
+				*site.props = (*site.props)[:len(*site.props)-1] // would break a list method (fix cec4e3a)
+				continue
+			}
 			recs = append(recs, EditRec{"field", site.desc, p.Name + " objinline named like referenced type " + names[i], site.at.fieldEdit(r, p), ""})
 		case k < 22 && len(msgs) > 0: // field referring to a well-known type - also the type of the implicit leading field of a topic message
 			var cands []msgSite
@@ -373,6 +377,10 @@ func ApplyEdits(r *vh.Rand, b *Bundle, pkg string, n int) []EditRec {
 				p.Optional = true // also on the array form (plain repeated field)
 			}
 			*site.props = append(*site.props, p)
+			if m := MethodOf(b, site.props); m != nil && !ListMethodOK(m) {
+				*site.props = (*site.props)[:len(*site.props)-1] // would break a list method (fix cec4e3a)
+				continue
+			}
 			recs = append(recs, EditRec{"field", site.desc, p.Name + " ref to implicit type " + w[1], site.at.fieldEdit(r, p), ""})
 		case k < 55 && len(msgs) > 0: // field
 			site := vh.Pick(r, msgs)
@@ -382,6 +390,10 @@ func ApplyEdits(r *vh.Rand, b *Bundle, pkg string, n int) []EditRec {
 				continue
 			}
 			*site.props = append(*site.props, p)
+			if m := MethodOf(b, site.props); m != nil && !ListMethodOK(m) {
+				*site.props = (*site.props)[:len(*site.props)-1] // would break a list method (fix cec4e3a)
+				continue
+			}
 			recs = append(recs, EditRec{"field", site.desc, p.Name + " " + p.F.Kind, site.at.fieldEdit(r, p), ""})
 		case k < 62 && len(msgs) > 0: // nested declaration at the end of a declared object / oneof
 			var cands []msgSite
@@ -433,12 +445,20 @@ func ApplyEdits(r *vh.Rand, b *Bundle, pkg string, n int) []EditRec {
 			if len(site.e.Opts) == 0 {
 				note = "to_enum_without_options"
 				if strings.HasSuffix(o, "UNSPECIFIED") {
-					// the recorded finding: this option becomes the first one = the zero value (the model
-					// applies the edit as it is; C13_full excludes it: J5sEdit.enum_append_ok)
-					note = "known_class_unspecified_to_enum_without_options"
+					// before fix a65e1f2 this option, the first one now, became the zero value
+					note = "unspecified_to_enum_without_options"
 				}
 			}
 			site.e.Opts = append(site.e.Opts, o)
+			if !strings.HasSuffix(o, "UNSPECIFIED") && r.Chance(25) {
+				// `number = N` on the appended option, N among the numbers the earlier options have:
+				// ignored by the compiler (seeded C13-G: honoured, the earlier options renumbered)
+				if site.e.OptNum == nil {
+					site.e.OptNum = map[string]int{}
+				}
+				site.e.OptNum[o] = r.Range(1, len(site.e.Opts))
+				note += "_with_number_attr"
+			}
 			recs = append(recs, EditRec{"option", site.desc, o, site.edit(o), note})
 		default: // declaration
 			fk := r.Intn(len(files))
